@@ -37,5 +37,11 @@ example : decode 4 (.list (.prim DataTypeCodeInt)) (some [0x7F, 0xFF, 0xFF, 0xFF
 example : decode 4 (.list (.prim DataTypeCodeInt)) (some [0, 0, 0, 1, 0, 0, 0, 2, 7, 7]) = .err "wrong fixed length" := rfl
 example : decode 4 (.tuple [.prim DataTypeCodeInt, .prim DataTypeCodeInt]) (some [0, 0, 0, 4, 0, 0, 0, 1]) = .err "eof" := rfl
 example : decode 4 (.prim DataTypeCodeInt) (some [0, 0, 0, 1, 9]) = .err "wrong fixed length" := rfl
+-- a UDT (unlike a tuple) may stop early: input exhausted before a field is neither a panic nor an error, the field is
+-- NULL (spec §6; `Cql.Props.C12.C12_udt_fewer_fields`); a field cut short is still an error
+example : decode 4 (.udt [] [] [[0x61], [0x62]] [.prim DataTypeCodeBlob, .prim DataTypeCodeBlob])
+    (some [0, 0, 0, 1, 7]) = .ok (some (.udt [some (.bytes [7]), none])) := rfl
+example : decode 4 (.udt [] [] [[0x61], [0x62]] [.prim DataTypeCodeBlob, .prim DataTypeCodeBlob])
+    (some [0, 0, 0, 1, 7, 0, 0]) = .err "eof" := rfl
 
 end Cql.Props.C04Value
